@@ -2,6 +2,7 @@
 environment: systemd-style activation variables that name the master / another process, fd:// binds, a unix path that is
 absent / a stale socket file / another server's live socket / a regular file, a TCP port that is free / taken / released
 after two seconds.  Not one of the listed properties: differences are reported as drift."""
+import fcntl
 import os
 import shutil
 import socket
@@ -67,6 +68,7 @@ def run_start(sd, binds, path, busyfor):
             port = holder.getsockname()[1]
         # descriptors handed over: one for the fd:// bind, one for the activation variables
         fdsock = sdsock = None
+        his = []
         args = []
         pass_fds = []
         for b in binds:
@@ -78,17 +80,21 @@ def run_start(sd, binds, path, busyfor):
                 fdsock = socket.socket(socket.AF_INET, socket.SOCK_STREAM)
                 fdsock.bind(("127.0.0.1", 0))
                 fdsock.listen(16)
-                fdsock.set_inheritable(True)
-                pass_fds.append(fdsock.fileno())
-                args += ["-b", "fd://%d" % fdsock.fileno()]
+                # (a descriptor number well above 3: the launcher puts the activation socket on 3)
+                fdnum = fcntl.fcntl(fdsock.fileno(), fcntl.F_DUPFD, 100)
+                os.set_inheritable(fdnum, True)
+                his.append(fdnum)
+                pass_fds.append(fdnum)
+                args += ["-b", "fd://%d" % fdnum]
         sdfd = 0
         if sd != "none":
             sdsock = socket.socket(socket.AF_INET, socket.SOCK_STREAM)
             sdsock.bind(("127.0.0.1", 0))
             sdsock.listen(16)
-            sdsock.set_inheritable(True)
-            pass_fds.append(sdsock.fileno())
-            sdfd = sdsock.fileno()
+            sdfd = fcntl.fcntl(sdsock.fileno(), fcntl.F_DUPFD, 100)
+            os.set_inheritable(sdfd, True)
+            his.append(sdfd)
+            pass_fds.append(sdfd)
         errp = os.path.join(d, "err.log")
         cmd = [rp.PY, "-c", LAUNCH, sd, str(sdfd), "--chdir", rp.APPDIR, "-w", "1", "--error-logfile", errp,
                "--worker-tmp-dir", d, "--graceful-timeout", "2"] + args + ["vapp:app"]
@@ -145,6 +151,11 @@ def run_start(sd, binds, path, busyfor):
                     intact = f.read() == "precious"
             except OSError:
                 intact = False
+        for h in his:
+            try:
+                os.close(h)
+            except OSError:
+                pass
         for x in (holder, other, fdsock, sdsock):
             if x is not None:
                 try:
